@@ -66,6 +66,10 @@ def gen_cases(corpus, vectors, tier, rng):
             f = strip_idx(suffix)
             if site_ok(base + ('domain', f)):
                 yield f"{v['id']}!{suffix}", {**meta0, 'klass': 'domain', 'site': f}, frame
+        for suffix, frame in faults.string_faults(v):
+            f = strip_idx(suffix.split('@')[1].split('=')[0]) + suffix.split('=')[1]
+            if site_ok(base + ('string', f)):
+                yield f"{v['id']}!{suffix}", {**meta0, 'klass': 'string', 'site': f}, frame
         for suffix, frame in faults.header_faults(v):
             if site_ok(base + ('hdr', suffix)):
                 yield f"{v['id']}!{suffix}", {**meta0, 'klass': 'header', 'site': suffix}, frame
